@@ -70,7 +70,7 @@ def runLine (line : String) : String :=
         let tr := "|".intercalate (st.out.reverse.map showOut)
         match o with
         | .outOfFuel => s!"FUEL trace={tr}"
-        | o => s!"trace={tr} status={st.status} err={if (o == .syntaxError && !st.aborted) || st.errRep then 1 else 0} echo={encBytes st.echo} fin={showFin st}"
+        | o => s!"trace={tr} status={exitStatus st o} err={if (o == .syntaxError && !st.aborted) || st.errRep then 1 else 0} echo={encBytes st.echo} fin={showFin st}"
       let obs := showObs r.1 r.2.1
       let prefixes := (List.range units.length).filterMap fun k =>
         if k == 0 then none else some (units.take k).flatten
